@@ -87,7 +87,7 @@ structure NodeSpec (nodeF : Option (Vis N) → N → List VOut × Option (Vis N)
 
 /-! ### the filter (`pull`) -/
 
-theorem pull_spec (active : Bool) (raw : List (Item N)) (st : IterSt N) :
+def PullSpec (active : Bool) (raw : List (Item N)) (st : IterSt N) : Prop :=
     (∃ bad, (pull active raw st).2.2.acc = st.acc ++ bad ∧ ∀ s ∈ bad, s = [.ok false true]) ∧
     (st.lastErr = true → (pull active raw st).2.2.lastErr = true) ∧
     ((active = false ∨ st.vis = none) → (pull active raw st).2.2.vis = st.vis) ∧
@@ -99,9 +99,12 @@ theorem pull_spec (active : Bool) (raw : List (Item N)) (st : IterSt N) :
     ((pull active raw st).1 = none → (pull active raw st).2.1 = []) ∧
     ((pull active raw st).2.2.acc = st.acc → (pull active raw st).2.2.lastErr = false →
       ∀ it ∈ raw, it ∈ (pull active raw st).2.1 ∨ ((pull active raw st).1 = some it.child ∧ it.cond = .tt) ∨ it.cond = .ff ∨
-        (active = true ∧ ∃ V' n, (pull active raw st).2.2.vis = some V' ∧ it.child = some n ∧ n ∈ nodesJ V')) := by
+        (active = true ∧ ∃ V' n, (pull active raw st).2.2.vis = some V' ∧ it.child = some n ∧ n ∈ nodesJ V'))
+
+theorem pull_spec (active : Bool) (raw : List (Item N)) (st : IterSt N) : PullSpec active raw st := by
   induction raw generalizing st with
   | nil =>
+    unfold PullSpec
     refine ⟨⟨[], by simp [pull], by simp⟩, by simp [pull], by simp [pull], ?_, by simp [pull], by simp [pull],
       by simp [pull], by simp [pull]⟩
     intro _ V hV
@@ -116,8 +119,9 @@ theorem pull_spec (active : Bool) (raw : List (Item N)) (st : IterSt N) :
         (active = true → ∀ V, st.vis = some V → ∃ V1, st1.vis = some V1 ∧ SubVis V V1 ∧ ∀ m ∈ nodesJ V1, m ∈ nodesJ V) →
         ((st1.acc = st.acc → st1.lastErr = false → it.cond = .ff ∨
           (active = true ∧ ∃ V1 n, st1.vis = some V1 ∧ it.child = some n ∧ n ∈ nodesJ V1))) →
-        _ := by
+        PullSpec active (it :: rest) st := by
       intro st1 heq hacc hle hvn hvs hit
+      unfold PullSpec
       rw [heq]
       obtain ⟨⟨bad, hb1, hb2⟩, i2, i3, i4, i5, i6, i7, i8⟩ := ih st1
       obtain ⟨b1, hb3, hb4⟩ := hacc
@@ -148,14 +152,10 @@ theorem pull_spec (active : Bool) (raw : List (Item N)) (st : IterSt N) :
       · intro hacc2 hle2 x hx
         -- no bad element was appended anywhere
         have hbad : b1 = [] ∧ bad = [] := by
-          rw [hb1, hb3, List.append_assoc] at hacc2
-          have : b1 ++ bad = [] := by
-            have := congrArg List.length hacc2
-            simp at this
-            cases hb : b1 ++ bad with
-            | nil => rfl
-            | cons a l => rw [hb] at this; simp at this; omega
-          exact List.append_eq_nil_iff.mp this
+          have hlen : (st.acc ++ (b1 ++ bad)).length = st.acc.length := by
+            rw [← List.append_assoc, ← hb3, ← hb1, hacc2]
+          simp only [List.length_append] at hlen
+          exact ⟨List.eq_nil_of_length_eq_zero (by omega), List.eq_nil_of_length_eq_zero (by omega)⟩
         have hacc1 : st1.acc = st.acc := by rw [hb3, hbad.1]; simp
         have hacc3 : (pull active rest st1).2.2.acc = st1.acc := by rw [hb1, hbad.2]; simp
         have hle1 : st1.lastErr = false := by
@@ -169,7 +169,6 @@ theorem pull_spec (active : Bool) (raw : List (Item N)) (st : IterSt N) :
             exact Or.inr (Or.inr (Or.inr ⟨ha, V', n, hV', hc, nodesJ_mono hs2 hn⟩))
         · exact i8 hacc3 hle2 x hx
     -- now the definition
-    simp only [pull]
     cases hact : (if active then st.vis else none) with
     | none =>
       have hnv : active = false ∨ st.vis = none := by
@@ -180,10 +179,12 @@ theorem pull_spec (active : Bool) (raw : List (Item N)) (st : IterSt N) :
           (active = true → ∀ V, st.vis = some V → ∃ V1, st1.vis = some V1 ∧ SubVis V V1 ∧ ∀ m ∈ nodesJ V1, m ∈ nodesJ V) := by
         intro st1 h1 _ V hV
         exact ⟨V, by rw [h1, hV], SubVis.refl V, fun _ hm => hm⟩
-      simp only []
       cases hc : it.cond with
       | tt =>
-        simp only []
+        have heq : pull active (it :: rest) st = (some it.child, rest, { st with onceValid := true }) := by
+          simp [pull, hact, hc]
+        unfold PullSpec
+        rw [heq]
         refine ⟨⟨[], by simp, by simp⟩, id, fun _ => rfl, ?_, ?_, ?_, by simp, ?_⟩
         · intro ha V hV
           rcases hnv with h | h
@@ -196,15 +197,12 @@ theorem pull_spec (active : Bool) (raw : List (Item N)) (st : IterSt N) :
           · exact Or.inr (Or.inl ⟨rfl, hc⟩)
           · exact Or.inl hx
       | ff =>
-        simp only []
         exact cont st (by simp [pull, hact, hc]) ⟨[], by simp, by simp⟩ id (fun _ => rfl) (hstay st rfl)
           (fun _ _ => Or.inl hc)
       | err =>
-        simp only []
         exact cont { st with lastErr := true } (by simp [pull, hact, hc]) ⟨[], by simp, by simp⟩ (fun _ => rfl)
           (fun _ => rfl) (hstay _ rfl) (fun _ h => by simp at h)
       | errSw =>
-        simp only []
         exact cont { st with lastErr := true } (by simp [pull, hact, hc]) ⟨[], by simp, by simp⟩ (fun _ => rfl)
           (fun _ => rfl) (hstay _ rfl) (fun _ h => by simp at h)
     | some V =>
@@ -212,57 +210,64 @@ theorem pull_spec (active : Bool) (raw : List (Item N)) (st : IterSt N) :
         cases active with
         | false => simp at hact
         | true => simp at hact; exact ⟨rfl, hact⟩
-      simp only []
+      have hno : ¬ (active = false ∨ st.vis = none) := by
+        rintro (h | h)
+        · rw [h] at hav; cases hav.1
+        · rw [h] at hav; cases hav.2
       cases hf : V.find? (fun e => e.1 = it.key) with
       | some e =>
-        simp only []
         by_cases hbad : (!(e.2.2 && decide (it.child = some e.2.1))) = true
-        · rw [if_pos hbad]
-          refine cont { st with acc := st.acc ++ [[.ok false true]] } (by simp [pull, hact, hf, hbad])
+        · refine cont { st with acc := st.acc ++ [[.ok false true]] } (by simp [pull, hact, hf, hbad])
             ⟨[[.ok false true]], rfl, by simp⟩ id (fun _ => rfl) ?_ ?_
           · intro _ V0 hV0; exact ⟨V0, hV0, SubVis.refl V0, fun _ hm => hm⟩
           · intro h; simp at h
-        · rw [if_neg hbad]
-          refine cont st (by simp [pull, hact, hf, hbad]) ⟨[], by simp, by simp⟩ id (fun _ => rfl) ?_ ?_
+        · refine cont st (by simp [pull, hact, hf, hbad]) ⟨[], by simp, by simp⟩ id (fun _ => rfl) ?_ ?_
           · intro _ V0 hV0; exact ⟨V0, hV0, SubVis.refl V0, fun _ hm => hm⟩
           · intro _ _
-            refine Or.inr ⟨hav.1, V, e.2.1, hav.2, ?_, ?_⟩
-            · simp at hbad; exact hbad.2
-            · have hm : e ∈ V := List.mem_of_find?_eq_some hf
-              simp at hbad
-              refine mem_nodesJ.mpr ⟨e.1, ?_⟩
-              have : e = (e.1, e.2.1, true) := by
-                rcases e with ⟨k, n, j⟩; simp at hbad ⊢; exact hbad.1
-              rw [← this]; exact hm
+            have hb2 : e.2.2 = true ∧ it.child = some e.2.1 := by simpa using hbad
+            refine Or.inr ⟨hav.1, V, e.2.1, hav.2, hb2.2, ?_⟩
+            have hm : e ∈ V := List.mem_of_find?_eq_some hf
+            refine mem_nodesJ.mpr ⟨e.1, ?_⟩
+            have : e = (e.1, e.2.1, true) := by
+              rcases e with ⟨k, n, j⟩
+              simp at hb2 ⊢
+              exact hb2.1
+            rw [← this]; exact hm
       | none =>
-        simp only []
         -- the new visited set
-        have hV'sub : ∀ (V' : Vis N), V' = (match it.child with | some n => (it.key, n, decide (it.cond = Leaf.tt)) :: V | none => V) →
-            SubVis V V' := by
-          intro V' h
-          cases hch : it.child with
-          | none => rw [hch] at h; subst h; exact SubVis.refl V
-          | some n => rw [hch] at h; subst h; exact fun x hx => List.mem_cons_of_mem _ hx
-        generalize hV' : (match it.child with | some n => (it.key, n, decide (it.cond = Leaf.tt)) :: V | none => V) = V'
-        have hsub := hV'sub V' hV'.symm
+        obtain ⟨V', hV'⟩ : ∃ V', V' = mark it V := ⟨_, rfl⟩
+        have hsub : SubVis V V' := by
+          subst hV'; unfold mark
+          cases it.child with
+          | none => exact SubVis.refl V
+          | some n => exact fun x hx => List.mem_cons_of_mem _ hx
         have hnew : ∀ m ∈ nodesJ V', m ∈ nodesJ V ∨ (it.cond = .tt ∧ it.child = some m) := by
           intro m hm
           obtain ⟨k, hk⟩ := mem_nodesJ.mp hm
+          subst hV'; unfold mark at hk
           cases hch : it.child with
-          | none => rw [hch] at hV'; subst hV'; exact Or.inl (mem_nodesJ.mpr ⟨k, hk⟩)
+          | none => rw [hch] at hk; exact Or.inl (mem_nodesJ.mpr ⟨k, hk⟩)
           | some n =>
-            rw [hch] at hV'; subst hV'
+            rw [hch] at hk
             rcases List.mem_cons.mp hk with h | h
             · simp at h; exact Or.inr ⟨h.2.2, by rw [h.2.1]⟩
             · exact Or.inl (mem_nodesJ.mpr ⟨k, h⟩)
+        have hvs : ∀ (st1 : IterSt N), st1.vis = some V' → it.cond ≠ .tt →
+            (active = true → ∀ V0, st.vis = some V0 → ∃ V1, st1.vis = some V1 ∧ SubVis V0 V1 ∧ ∀ m ∈ nodesJ V1, m ∈ nodesJ V0) := by
+          intro st1 h1 hne _ V0 hV0
+          rw [hav.2] at hV0; cases hV0
+          refine ⟨V', h1, hsub, ?_⟩
+          intro m hm
+          rcases hnew m hm with h | ⟨h, _⟩
+          · exact h
+          · exact absurd h hne
         cases hc : it.cond with
         | tt =>
-          simp only []
-          refine ⟨⟨[], by simp, by simp⟩, id, ?_, ?_, ?_, ?_, by simp, ?_⟩
-          · intro h
-            rcases h with h | h
-            · rw [h] at hav; cases hav.1
-            · rw [h] at hav; cases hav.2
+          have heq : pull active (it :: rest) st = (some it.child, rest, { st with vis := some V', onceValid := true }) := by
+            simp [pull, hact, hf, hc, hV']
+          unfold PullSpec
+          rw [heq]
+          refine ⟨⟨[], by simp, by simp⟩, id, fun h => absurd h hno, ?_, ?_, ?_, by simp, ?_⟩
           · intro _ V0 hV0
             rw [hav.2] at hV0; cases hV0
             refine ⟨V', rfl, hsub, ?_, ?_⟩
@@ -271,9 +276,10 @@ theorem pull_spec (active : Bool) (raw : List (Item N)) (st : IterSt N) :
               · exact Or.inl h
               · exact Or.inr (by rw [h])
             · intro n hn
-              simp at hn
+              have hn' : it.child = some n := by simpa using hn
               refine mem_nodesJ.mpr ⟨it.key, ?_⟩
-              rw [hn] at hV'; subst hV'
+              subst hV'; unfold mark
+              rw [hn']
               simp [hc]
           · intro x hx; exact List.mem_cons_of_mem _ hx
           · intro c hcc; simp at hcc; exact ⟨it, by simp, hc, hcc⟩
@@ -282,50 +288,20 @@ theorem pull_spec (active : Bool) (raw : List (Item N)) (st : IterSt N) :
             · exact Or.inr (Or.inl ⟨rfl, hc⟩)
             · exact Or.inl hx
         | ff =>
-          simp only []
-          refine cont { st with vis := some V' } (by simp [pull, hact, hf, hc, hV']) ⟨[], by simp, by simp⟩ id ?_ ?_
-            (fun _ _ => Or.inl hc)
-          · intro h
-            rcases h with h | h
-            · rw [h] at hav; cases hav.1
-            · rw [h] at hav; cases hav.2
-          · intro _ V0 hV0
-            rw [hav.2] at hV0; cases hV0
-            refine ⟨V', rfl, hsub, ?_⟩
-            intro m hm
-            rcases hnew m hm with h | ⟨h, _⟩
-            · exact h
-            · rw [hc] at h; cases h
+          have heq : pull active (it :: rest) st = pull active rest { st with vis := some V' } := by
+            simp [pull, hact, hf, hc, hV']
+          exact cont { st with vis := some V' } heq ⟨[], by simp, by simp⟩ id (fun h => absurd h hno)
+            (hvs _ rfl (by rw [hc]; intro h; cases h)) (fun _ _ => Or.inl hc)
         | err =>
-          simp only []
-          refine cont { st with vis := some V', lastErr := true } (by simp [pull, hact, hf, hc, hV']) ⟨[], by simp, by simp⟩
-            (fun _ => rfl) ?_ ?_ (fun _ h => by simp at h)
-          · intro h
-            rcases h with h | h
-            · rw [h] at hav; cases hav.1
-            · rw [h] at hav; cases hav.2
-          · intro _ V0 hV0
-            rw [hav.2] at hV0; cases hV0
-            refine ⟨V', rfl, hsub, ?_⟩
-            intro m hm
-            rcases hnew m hm with h | ⟨h, _⟩
-            · exact h
-            · rw [hc] at h; cases h
+          have heq : pull active (it :: rest) st = pull active rest { st with vis := some V', lastErr := true } := by
+            simp [pull, hact, hf, hc, hV']
+          exact cont { st with vis := some V', lastErr := true } heq ⟨[], by simp, by simp⟩ (fun _ => rfl)
+            (fun h => absurd h hno) (hvs _ rfl (by rw [hc]; intro h; cases h)) (fun _ h => by simp at h)
         | errSw =>
-          simp only []
-          refine cont { st with vis := some V', lastErr := true } (by simp [pull, hact, hf, hc, hV']) ⟨[], by simp, by simp⟩
-            (fun _ => rfl) ?_ ?_ (fun _ h => by simp at h)
-          · intro h
-            rcases h with h | h
-            · rw [h] at hav; cases hav.1
-            · rw [h] at hav; cases hav.2
-          · intro _ V0 hV0
-            rw [hav.2] at hV0; cases hV0
-            refine ⟨V', rfl, hsub, ?_⟩
-            intro m hm
-            rcases hnew m hm with h | ⟨h, _⟩
-            · exact h
-            · rw [hc] at h; cases h
+          have heq : pull active (it :: rest) st = pull active rest { st with vis := some V', lastErr := true } := by
+            simp [pull, hact, hf, hc, hV']
+          exact cont { st with vis := some V', lastErr := true } heq ⟨[], by simp, by simp⟩ (fun _ => rfl)
+            (fun h => absurd h hno) (hvs _ rfl (by rw [hc]; intro h; cases h)) (fun _ h => by simp at h)
 
 end
 
